@@ -1,7 +1,88 @@
-(* placeholder until the codec theorems land *)
+(* C10 - wire and storage encodings are strict and canonical.  Statements only;
+   proofs in Theory/Codecs.v, Theory/Roundtrip.v, Theory/CodecsConcrete.v. *)
 From Coq Require Import List.
-From OKE Require Import BytesLemmas.
-Theorem C10_placeholder : forall l x y px py r1 r2,
-  Bytes.lenprefix l x = Some px -> Bytes.lenprefix l y = Some py -> px ++ r1 = py ++ r2 -> x = y /\ r1 = r2.
-Proof. exact lenprefix_inj. Qed.
-Print Assumptions C10_placeholder.
+From OKE Require Import Bytes Suite Messages Codecs Roundtrip CodecsConcrete.
+
+(* A decoder D with encoder S is strict when every accepted byte string re-encodes to itself. *)
+Definition strict {A} (D : bytes -> result A) (S : A -> bytes) : Prop := forall b v, D b = Ok v -> S v = b.
+
+(* all eleven decoders of a suite *)
+Definition all_decoders_strict {E Sc Pk Sk} (CS : Suite E Sc Pk Sk) : Prop :=
+  strict (registration_request_deserialize CS) (registration_request_serialize CS) /\
+  strict (registration_response_deserialize CS) (registration_response_serialize CS) /\
+  strict (registration_upload_deserialize CS) (registration_upload_serialize CS) /\     (* = password file *)
+  strict (credential_request_deserialize CS) (credential_request_serialize CS) /\
+  strict (credential_response_deserialize CS) (credential_response_serialize CS) /\
+  strict (credential_finalization_deserialize CS) credential_finalization_serialize /\
+  strict (server_setup_deserialize CS (private_key_ops (ke CS))) (server_setup_serialize CS (private_key_ops (ke CS))) /\
+  strict (client_registration_deserialize CS) (client_registration_serialize CS) /\
+  strict (client_login_deserialize CS) (client_login_serialize CS) /\
+  strict (server_login_deserialize CS) server_login_serialize.
+
+(* generic: strictness of all decoders from the element-level laws *)
+Theorem C10_strict_generic :
+  forall E Sc Pk Sk (CS : Suite E Sc Pk Sk), CodecLaws CS -> all_decoders_strict CS.
+Proof.
+  intros E Sc Pk Sk CS L. unfold all_decoders_strict, strict.
+  repeat split; intros b v H.
+  - eapply registration_request_strict; eauto.
+  - eapply registration_response_strict; eauto.
+  - eapply registration_upload_strict; eauto.
+  - eapply credential_request_strict; eauto.
+  - eapply credential_response_strict; eauto.
+  - eapply credential_finalization_strict; eauto.
+  - eapply server_setup_strict; eauto.
+  - eapply client_registration_strict; eauto.
+  - eapply client_login_strict; eauto.
+  - eapply server_login_strict; eauto.
+Qed.
+Print Assumptions C10_strict_generic.
+
+(* concrete: unconditional for the 16 suites whose key-exchange group is P-256/384/521 or Curve25519 *)
+Theorem C10_strict_16_suites : all_suites_ke_not_ristretto (fun _ _ _ _ CS => all_decoders_strict CS).
+Proof.
+  pose proof codec_laws_16 as H. unfold all_suites_ke_not_ristretto in *.
+  repeat match goal with H : _ /\ _ |- _ => destruct H end.
+  repeat split; apply C10_strict_generic; assumption.
+Qed.
+Print Assumptions C10_strict_16_suites.
+
+(* all 20, given that the ristretto255 decoder is canonical (RFC 9496; a hypothesis, DESIGN.md 6) *)
+Theorem C10_strict_20_suites : ristretto_canonical -> all_suites (fun _ _ _ _ CS => all_decoders_strict CS).
+Proof.
+  intros R. pose proof (codec_laws_20 R) as H. unfold all_suites in *.
+  repeat match goal with H : _ /\ _ |- _ => destruct H end.
+  repeat split; apply C10_strict_generic; assumption.
+Qed.
+Print Assumptions C10_strict_20_suites.
+
+(* fixed length: every accepted credential response has the suite's length; two different byte
+   strings are never the same message *)
+Theorem C10_fixed_length_credential_response :
+  forall E Sc Pk Sk (CS : Suite E Sc Pk Sk) b m,
+    credential_response_deserialize CS b = Ok m -> length b = credential_response_len CS.
+Proof. exact @credential_response_length. Qed.
+Print Assumptions C10_fixed_length_credential_response.
+
+Theorem C10_no_two_strings_one_message :
+  forall E Sc Pk Sk (CS : Suite E Sc Pk Sk), CodecLaws CS ->
+  forall b1 b2 m, credential_response_deserialize CS b1 = Ok m -> credential_response_deserialize CS b2 = Ok m -> b1 = b2.
+Proof. exact @credential_response_injective. Qed.
+Print Assumptions C10_no_two_strings_one_message.
+
+(* encoding followed by decoding is the identity on well-formed values *)
+Theorem C10_roundtrip_credential_response :
+  forall E Sc Pk Sk (CS : Suite E Sc Pk Sk) m,
+    wf_elem_nonid CS (cr_eval m) -> length (cr_masking_nonce m) = Generated.KE_NONCE_LEN ->
+    wf_masked CS (cr_masked m) -> wf_ke2 CS (cr_ke2 m) ->
+    credential_response_deserialize CS (credential_response_serialize CS m) = Ok m.
+Proof. exact @credential_response_rt. Qed.
+Print Assumptions C10_roundtrip_credential_response.
+
+Theorem C10_roundtrip_client_login :
+  forall E Sc Pk Sk (CS : Suite E Sc Pk Sk) s,
+    wf_scalar CS (cl_blind s) -> wf_elem_nonid CS (cq_blinded (cl_request s)) -> wf_ke1 CS (cq_ke1 (cl_request s)) ->
+    wf_sk CS (k1s_client_e_sk (cl_ke1_state s)) -> length (k1s_nonce (cl_ke1_state s)) = Generated.KE_NONCE_LEN ->
+    client_login_deserialize CS (client_login_serialize CS s) = Ok s.
+Proof. exact @client_login_rt. Qed.
+Print Assumptions C10_roundtrip_client_login.
